@@ -214,7 +214,7 @@ func cmdCheck(args []string) {
 		}
 		metas[nextID] = m
 		pk := pkgOf(j.ex.Fn)
-		byPkg[pk] = append(byPkg[pk], replay.Vector{ID: nextID, Harness: j.ex.Name, Vals: replay.U64s(vals)})
+		byPkg[pk] = append(byPkg[pk], replay.Vector{ID: nextID, Harness: j.ex.Name, Vals: replay.U64s(vals), Labels: j.spec.Labels})
 	}
 	for _, j := range jobs {
 		for i := range j.ex.Samples {
@@ -323,7 +323,7 @@ func cmdCheck(args []string) {
 			path := filepath.Join(outDir, fmt.Sprintf("%s-%d.json", m.job.ex.Name, k))
 			rb, _ := json.MarshalIndent(map[string]interface{}{
 				"property": id, "harness": m.job.ex.Name, "label": v.Label, "kind": v.Kind, "site": v.Site, "msg": v.Msg,
-				"map_order_policy": m.job.pol, "decision_prefix": exec.DecStr(v.Prefix), "inputs": v.Inputs,
+				"map_order_policy": m.job.pol, "decision_prefix": exec.DecStr(v.Prefix), "inputs": v.Inputs, "labels": m.job.spec.Labels,
 				"vector": replay.U64s(inputVals(v.Inputs)), "native_status": r.Status, "native_detail": r.Detail,
 			}, "", " ")
 			os.WriteFile(path, rb, 0o644)
